@@ -785,6 +785,11 @@ func init() {
 		unsup("time.Now")
 		return nil
 	}
+	intrinsics["time.initLocal"] = func(e *Exec, args []Value, st string) Value {
+		// an empty localLoc behaves as UTC (time.Location.lookup); native replays run with TZ=UTC
+		e.Stubs["time.Local = UTC (native replays run with TZ=UTC)"] = true
+		return nil
+	}
 	intrinsics["os.Open"] = func(e *Exec, args []Value, st string) Value {
 		unsup("os.Open")
 		return nil
